@@ -4,31 +4,31 @@ DEFERRED = "rules for this property are not armed yet (build order: DESIGN.md Ap
 CLAIMS = {
     "C18": {
         "level": "other",
-        "text": "Shape clauses of the TLS upgrade (default-features build): the TLS stream is seeded with bytes[len-remaining..] (affine) and remaining := 0 on every path, the prepending reader is Cursor(prepended.to_vec()).chain(socket) and forwards write/flush to the socket half, SwitchableConn forwards read/write/flush to the active variant in all 6 arms, the plain socket is taken out and wrapped (no second handle), the switch has one call site reached in a clean connection state, a client requesting TLS without a configuration is refused before the shim, and the TLS path runs switch -> read -> parse(after_tls) -> username -> certificates -> after_authentication. The behaviour of rustls over arbitrary chunkings, certificate delivery and absence of plaintext produced inside rustls are NOT decided.",
+        "text": "Shape clauses of the TLS upgrade (default-features build): the TLS stream is seeded with bytes[len-remaining..] (affine) and remaining := 0 on every path, the prepending reader is Cursor(prepended.to_vec()).chain(socket) and forwards write/flush to the socket half, SwitchableConn forwards read/write/flush to the active variant in all 6 arms, the plain socket is taken out and wrapped (no second handle), the switch has one call site reached in a clean connection state, a client requesting TLS without a configuration is refused before the shim, and the TLS path runs switch -> read -> parse(after_tls) -> username -> certificates -> after_authentication. The behaviour of rustls over arbitrary chunkings, certificate delivery and absence of plaintext produced inside rustls are NOT decided. The delegation receiver is the variant's payload itself (not a part of the TLS session); CLIENT_SSL is tested on the capability word the client sent, unmasked.",
         "note": "Trusted: rustls, std::io::Chain/Cursor. Relies on C01.window-invariant for the meaning of bytes[len-remaining..].",
         "technique": "affine slice-offset analysis, delegation table check, typestate at the switch site, path-order rules over the handshake",
     },
     "C06": {
         "level": "other",
-        "text": "Cell framing, NULL marker and text grammar of the text protocol encoders: every to_mysql_text path emits exactly one lenenc string through the library writer, or FB (only on the None path), or one delegation; text-mode write_col encodes once into the connection and end_row ends one packet; the compiled format_args! template of each encoder is decoded and compared, with the origin of each argument, to the MySQL literal grammar (`{}` of the value for integers/floats; %04-%02-%02 [%02:%02:%02[.%06]] of the named chrono accessors with the fraction exactly when non-zero; TIME %02:%02:%02[.%06] of secs/3600, secs%3600/60, secs%60, subsec_micros). What Display prints for numbers and how a client parses text back is NOT decided (std / client behaviour).",
+        "text": "Cell framing, NULL marker and text grammar of the text protocol encoders: every to_mysql_text path emits exactly one lenenc string through the library writer, or FB (only on the None path), or one delegation; text-mode write_col encodes once into the connection and end_row ends one packet; the compiled format_args! template of each encoder is decoded and compared, with the origin of each argument, to the MySQL literal grammar (`{}` of the value for integers/floats; %04-%02-%02 [%02:%02:%02[.%06]] of the named chrono accessors with the fraction exactly when non-zero; TIME %02:%02:%02[.%06] of secs/3600, secs%3600/60, secs%60, subsec_micros). What Display prints for numbers and how a client parses text back is NOT decided (std / client behaviour). Cells of 16 MiB and more are split by the framer, so the framing clauses of C04 (sole writer, header = payload, split threshold, empty terminator, write progress) are evaluated here as well.",
         "note": "Trusted: write_lenenc_str; core::fmt Display for integers and floats; the template encoding of this toolchain's core::fmt (a different encoding fails closed).",
         "technique": "emission-sequence analysis + decoding of compiled format templates with def-use of their arguments",
     },
     "C07": {
         "level": "other",
-        "text": "Binary row layout rules: bitmap length (n+9)/8 and NULL bit (c+2)/8, (c+2)%8 as affine normal forms (offset 2 in all three places, for every column count); row header 00 once at column 0 followed by a zero-filled bitmap of bitmap_len bytes, relying on the buffer being empty (constructor + clear() in end_row, which writes the buffer whole before exactly one packet end); NULL for NOT NULL refused, NULL never encoded, non-NULL never sets a bit; per (impl, column-type arm) emission layouts for f32/f64/byte strings/DATE/DATETIME/TIME vs the protocol, with length-byte self-consistency, slot sources by accessor name, TIME div/mod formulas, zero-length TIME only when seconds and micros are zero, 7-byte DATETIME exactly when the fraction is zero, other column types refused.",
+        "text": "Binary row layout rules: bitmap length (n+9)/8 and NULL bit (c+2)/8, (c+2)%8 as affine normal forms (offset 2 in all three places, for every column count); row header 00 once at column 0 followed by a zero-filled bitmap of bitmap_len bytes, relying on the buffer being empty (constructor + clear() in end_row, which writes the buffer whole before exactly one packet end); NULL for NOT NULL refused, NULL never encoded, non-NULL never sets a bit; per (impl, column-type arm) emission layouts for f32/f64/byte strings/DATE/DATETIME/TIME vs the protocol, with length-byte self-consistency, slot sources by accessor name, TIME div/mod formulas, zero-length TIME only when seconds and micros are zero, 7-byte DATETIME exactly when the fraction is zero, other column types refused. Rows of 16 MiB and more are split by the framer, so the framing clauses of C04 are evaluated here as well.",
         "note": "Trusted: chrono accessors, lenenc writer. Integer exactness is C15's. Generic Value::Date/Time conversion through chrono is not decided.",
         "technique": "affine normal forms, emission-sequence analysis per column-type arm, path rules on write_col/end_row",
     },
     "C08": {
         "level": "other",
-        "text": "Reader-side layout rules for COM_STMT_EXECUTE parameters: NULL bitmap = payload[0..(params+7)/8) (affine), NULL test = byte col/8 bit col%8, per column-type arm and unsigned flag of the value parser the exact sequence of stateful cursor reads (widths, signedness, lenenc + guarded split, length byte + guarded split) and the variant produced, widening only; one column increment per yielded parameter, stop at col >= params, params = the statement's declared count; encoder/decoder agree on the 14 byte-string column types; the temporal converters' accepted length forms vs the protocol's, and satisfiability of every length test given the bytes already consumed (found and fixed: microseconds never decoded, 4-byte DATETIME panicked; zero-date forms remain known findings). Flag byte / type table / value start offsets are C16's rules.",
+        "text": "Reader-side layout rules for COM_STMT_EXECUTE parameters: NULL bitmap = payload[0..(params+7)/8) (affine), NULL test = byte col/8 bit col%8, per column-type arm and unsigned flag of the value parser the exact sequence of stateful cursor reads (widths, signedness, lenenc + guarded split, length byte + guarded split) and the variant produced, widening only; one column increment per yielded parameter, stop at col >= params, params = the statement's declared count; encoder/decoder agree on the 14 byte-string column types; the temporal converters' accepted length forms vs the protocol's, and satisfiability of every length test given the bytes already consumed (found and fixed: microseconds never decoded, 4-byte DATETIME panicked; zero-date forms remain known findings). Flag byte / type table / value start offsets are C16's rules. A parameter sent as long data is one of the bound values: C17's rules (append-only storage under the looked-up statement, inline path only after a lookup that found nothing, cleared after execute, per-statement isolation) are evaluated here as well.",
         "note": "Trusted: mysql_common::read_lenenc_int, chrono constructors, IEEE widening, byteorder cursor reads. Value equality through chrono/float formatting is not decided.",
         "technique": "cursor/read-sequence analysis over enumerated paths per column-type arm, affine normal forms, length-form satisfiability",
     },
     "C01": {
         "level": "other",
-        "text": "Mechanism clauses that make reassembly independent of chunking, decided symbolically: single transport read site and window-field ownership; the receive-window invariant start + remaining = len(bytes) established on entry and re-established around the read loop (inductive check with a Vec length model and a ghost `consumed prefix` counter: parser gets bytes[start..], remaining := len(rest), drain removes exactly the consumed prefix, the transport reads into bytes[old_len..], len := end + n); short buffers (parser Incomplete/Error) lead to another read, only Failure is an error; framing constants of the two packet parsers as affine cursor offsets (u24 length @0, sequence @3, payload @4 of exactly that length / ffffff + 0xFFFFFF bytes) and in-order appends of fragments. Byte-for-byte equality through nom's combinators is not decided (trusted library).",
+        "text": "Mechanism clauses that make reassembly independent of chunking, decided symbolically: single transport read site and window-field ownership; the receive-window invariant start + remaining = len(bytes) established on entry and re-established around the read loop (inductive check with a Vec length model and a ghost `consumed prefix` counter: parser gets bytes[start..], remaining := len(rest), drain removes exactly the consumed prefix, the transport reads into bytes[old_len..], len := end + n); short buffers (parser Incomplete/Error) lead to another read, only Failure is an error; framing constants of the two packet parsers as affine cursor offsets (u24 length @0, sequence @3, payload @4 of exactly that length / ffffff + 0xFFFFFF bytes) and in-order appends of fragments. Byte-for-byte equality through nom's combinators is not decided (trusted library). The reader goes (back) to the transport without a parse attempt only on a path that established remaining == 0 (entry/header → read and read → read paths); a verdict the framing parsers build themselves (fragment ids out of order) is a Failure, never Error/Incomplete, which the reader takes as `read more`.",
         "note": "Trusted: nom combinators return a suffix of their input; Read contract; Vec semantics.",
         "technique": "symbolic (affine) evaluation of buffer bookkeeping along enumerated loop paths with an inductive invariant check; cursor-offset analysis",
     },
@@ -52,7 +52,7 @@ CLAIMS = {
     },
     "C20": {
         "level": "other",
-        "text": "Panic-site obligations over the MIR of all client-path functions (call-graph reachability from run_on minus writer/encoder code, plus the parameter-decoding API): every Assert terminator, core::panicking call, unwrap/expect, split_at, indexing, drain and byteorder slice writer is either discharged mechanically (constant folding, type-derived intervals, dominating-branch facts with affine length/index forms, loop-range bounds), justified in a reasoned table tied to the invariant rule that backs it, or reported. Found and fixed three crashes (sequence id 255, unknown/truncated command, out-of-order fragments); seven sites in the parameter iterator remain as known findings with a triggering input. Plus loop-shape progress rule and feasibility of the iterator's unreachable!().",
+        "text": "Panic-site obligations over the MIR of all client-path functions (call-graph reachability from run_on minus writer/encoder code, plus the parameter-decoding API): every Assert terminator, core::panicking call, unwrap/expect, split_at, indexing, drain and byteorder slice writer is either discharged mechanically (constant folding, type-derived intervals, dominating-branch facts with affine length/index forms, loop-range bounds), justified in a reasoned table tied to the invariant rule that backs it, or reported. Found and fixed three crashes (sequence id 255, unknown/truncated command, out-of-order fragments); seven sites in the parameter iterator remain as known findings with a triggering input. Plus loop-shape progress rule and feasibility of the iterator's unreachable!(). The framing parsers answer a complete malformed message with Failure (Error/Incomplete would make the reader wait forever).",
         "note": "Trusted: no panics inside dependencies; Vec length <= isize::MAX; Read contract. A new panic-capable construct on the client path fails the check until discharged or reasoned.",
         "technique": "panic-site enumeration over MIR + interval/affine discharge with dominating branch facts; reasoned exception table",
     },
@@ -100,13 +100,13 @@ CLAIMS = {
     },
     "C12": {
         "level": "other",
-        "text": "Interprocedural typestate {clean,dirty} over MIR with callee summaries: at every call of the single transport-reading function in the handshake and in the command loop (back edge included) the connection must be clean on all non-error paths; plus flush completeness (packet terminator then transport flush on every Ok path, TLS wrappers delegate), parse-before-read and single wait site. A path property over all schedules, decided on all CFG paths.",
+        "text": "Interprocedural typestate {clean,dirty} over MIR with callee summaries: at every call of the single transport-reading function in the handshake and in the command loop (back edge included) the connection must be clean on all non-error paths; plus flush completeness (packet terminator then transport flush on every Ok path, TLS wrappers delegate), parse-before-read and single wait site. A path property over all schedules, decided on all CFG paths. After a read that delivered bytes, the next wait is preceded by a parse attempt unless remaining == 0 was established (read → read paths).",
         "note": "Trusted: the transport's flush() flushes; shim callbacks write only through the writer they are handed.",
         "technique": "typestate dataflow (forward may-analysis with interprocedural summaries), must-pass-through on enumerated paths",
     },
     "C16": {
         "level": "other",
-        "text": "Def-use/dominance/cursor-offset rules on the parameter iterator: type table = bound_types of the statement entry handed in, mutated only there; clear+push confined to the types-present branch, clear dominates the push loop, loop over 0..params with one push per iteration, entry i = (byte 1+2i, bit 7 of byte 2+2i) after the flag; value cursor after the header = nullmap_len+1(+2n) on both branches (affine offsets from split_at/index chains); parser uses entry `col`. Found and fixed the reuse-branch defect (flag byte not consumed).",
+        "text": "Def-use/dominance/cursor-offset rules on the parameter iterator: type table = bound_types of the statement entry handed in, mutated only there; clear+push confined to the types-present branch, clear dominates the push loop, loop over 0..params with one push per iteration, entry i = (byte 1+2i, bit 7 of byte 2+2i) after the flag; value cursor after the header = nullmap_len+1(+2n) on both branches (affine offsets from split_at/index chains); parser uses entry `col`. Found and fixed the reuse-branch defect (flag byte not consumed). Any `&mut` access to the type table or a store through `&mut (ColumnType, bool)` outside the rebind branch of the parameter iterator is a violation.",
         "note": "Trusted: Vec/slice semantics; protocol layout of COM_STMT_EXECUTE as encoded in the rule.",
         "technique": "affine cursor-offset analysis over origin terms, dominator rules, loop-shape check",
     },
